@@ -135,6 +135,14 @@ def r_variant_tree(model, rep):
                             and c.its[0] == ("call", ("global", "sorted"), (("sub", dat, ("const", "variants")),), ()):
                         ok = True
             msg = "child UIDs are not built as '%s-%s' % (self.uid, id) for id in sorted(data['variants'])"
+            if ok:
+                # ... and the list is looked for under the key it is read from
+                rd_ = ("sub", dat, ("const", "variants"))
+                users = [ev for ev in cx.events if ev.kind in ("bind", "call") and ev.value is not None and T.contains(ev.value, lambda x: x == rd_)]
+                probes = [facts.canon_guard_pair(g_) for ev in users for g_ in ev.guards
+                          if g_[0][0] == "cmp" and len(g_[0][1]) == 1 and g_[0][1][0] in ("in", "not in") and g_[0][2][1] == dat and g_[0][2][0][0] == "const"]
+                ok = bool(users) and bool(probes) and all(p_[1] and p_[0][2][0] == ("const", "variants") for p_ in probes)
+                msg = "the 'variants' list is read under a probe for another key: children are never found"
     rep.ob("R-VARIANT-TREE", "Variant.deserialize:children", ok, site=cx.site(f.node), msg="" if ok else msg)
     # paths and layered-product release are read from the variant's own entry
     pd = [ev for ev in cx.events if ev.kind == "call" and ev.value[1] == ("attr", ("attr", S, "paths"), "deserialize")]
